@@ -91,7 +91,52 @@ func init() {
 			}
 			b.WriteString("])")
 		}
-		b.WriteString("].\n")
+		b.WriteString("].\n\n")
+		// every use of the per-ID lock manager in the package (function, statement)
+		var uses []string
+		var names []string
+		for name := range p.files {
+			names = append(names, name)
+		}
+		sort.Strings(names)
+		for _, name := range names {
+			for _, d := range p.files[name].Decls {
+				fd, ok := d.(*ast.FuncDecl)
+				if !ok || fd.Body == nil {
+					continue
+				}
+				fname := fd.Name.Name
+				if r := recvName(fd); r != "" {
+					fname = r + "." + fname
+				}
+				ast.Inspect(fd.Body, func(n ast.Node) bool {
+					var call *ast.CallExpr
+					prefix := ""
+					switch x := n.(type) {
+					case *ast.DeferStmt:
+						call, prefix = x.Call, "defer "
+					case *ast.GoStmt:
+						call, prefix = x.Call, "go "
+					case *ast.ExprStmt:
+						if c, ok := x.X.(*ast.CallExpr); ok {
+							call = c
+						}
+					}
+					if call == nil {
+						return true
+					}
+					var cb bytes.Buffer
+					printer.Fprint(&cb, p.fset, call)
+					txt := oneLine(cb.String())
+					if strings.HasPrefix(txt, "sessionIDMutexes.") {
+						uses = append(uses, "("+coqString(fname)+", "+coqString(prefix+txt)+")")
+						return false
+					}
+					return true
+				})
+			}
+		}
+		b.WriteString("Definition idlock_uses : list (string * string) := [\n  " + strings.Join(uses, ";\n  ") + "].\n")
 		return b.String(), nil
 	}
 }
